@@ -18,6 +18,7 @@ def ctr_spec(start, end, comp):
     return (rfc4791_vevent(start, end, comp) if comp.name == "VEVENT" else
             rfc4791_vtodo(start, end, comp) if comp.name == "VTODO" else
             rfc4791_vjournal(start, end, comp) if comp.name == "VJOURNAL" else
+            rfc4791_vfreebusy(start, end, comp) if comp.name == "VFREEBUSY" else
             False)
 
 
@@ -27,11 +28,11 @@ def ctr_spec(start, end, comp):
           returns="bool")
 class ComponentTimeRangeMatcher_match_c:
     """Dispatch on the component type to the RFC 4791 9.9 table of that type; a component type
-    without a table (VTIMEZONE, ...) does not match.  VFREEBUSY and VALARM are outside this
-    contract (requires)."""
+    without a table (VTIMEZONE, ...) does not match.  VALARM (NotImplementedError) is outside
+    this contract (requires)."""
 
     def requires(self, comp):
-        return (self.start < self.end and comp.name != "VFREEBUSY" and comp.name != "VALARM"
+        return (self.start < self.end and comp.name != "VALARM"
                 and not (comp.name == "VEVENT" and has(comp, "DTEND") and has(comp, "DURATION"))
                 and not (comp.name == "VTODO" and has(comp, "DURATION") and (has(comp, "DUE") or not has(comp, "DTSTART"))))
 
